@@ -27,7 +27,7 @@ import (
 
 const c05Rule = "state = map of 0-12 keys (nibble-colliding alphabet, derived prefix/extension keys, long keys) with values of 0..100 bytes, V0 or V1, " +
 	"persisted with WriteDirty; honest proof for a drawn subset of present keys (completeness: Generate ok, Verify(k, model[k]) and Verify(k, empty) nil); " +
-	"then up to 8 adversarial variants of the proof (drop / duplicate / reorder / foreign nodes of a neighbouring state / byte flip / truncation / random and special byte strings / value pre-images / hash of a stored-by-hash value without its trailing zero bytes (in a quarter of the V1 states one value hash ends in a zero byte) / all nodes) " +
+	"(every Verify call is preceded by a Verify against the empty state with the empty node as proof: verifications must not depend on each other); then up to 8 adversarial variants of the proof (drop / duplicate / reorder / foreign nodes of a neighbouring state / byte flip / truncation / random and special byte strings / value pre-images / hash of a stored-by-hash value without its trailing zero bytes (in a quarter of the V1 states one value hash ends in a zero byte) / all nodes) " +
 	"x claims (present key with true, wrong, hash-of-value, empty value; absent keys derived from present keys or fresh, with empty and borrowed values): " +
 	"Verify == nil => claim true in the map. non-trivial = the map has >= 2 keys sharing a nibble prefix and (a V1 value > 32 bytes is among the proven keys or >= 1 variant differs from the honest proof as a multiset) " +
 	"and >= 1 false claim was evaluated; distinct by (version, map, proven keys, variant ops, claims)"
@@ -171,11 +171,19 @@ func c05Generate(t fataler, st *c05State, keys [][]byte) (p [][]byte, err error)
 	return Generate(st.root[:], keys, st.db)
 }
 
+var c05EmptyRoot = kit.Blake256([]byte{0x00})
+
 func c05Verify(t fataler, st *c05State, p [][]byte, k, v []byte) (err error) {
 	defer func() {
 		if r := recover(); r != nil {
 			t.Fatalf("Verify panicked: %v; state %s v1=%v proof %s key %x value %x\n%s", r, st.model.Describe(), st.v1, descrProof(p), k, v, debug.Stack())
 		}
+	}()
+	// verifications are independent of each other: a lookup against the empty state
+	// (its proof is the empty node, its root BLAKE2b-256(0x00)) precedes every call
+	func() {
+		defer func() { _ = recover() }()
+		_ = Verify([][]byte{{0x00}}, c05EmptyRoot[:], []byte{0x01}, nil)
 	}()
 	// Verify must not be handed slices it could corrupt for the next call
 	cp := make([][]byte, len(p))
